@@ -97,12 +97,42 @@ def _concrete(v, stmt, alias_index):
             return (lv.lineno, lv.col_offset + 1)
         raise AnalysisError('text search bounded by a %s location' % v.kind)
     if isinstance(v, tuple) and len(v) == 2 and all(isinstance(x, SymPos) for x in v):
-        n = _resolve_path(stmt, _generalise(v[0].path, alias_index))
-        return (n.lineno + v[0].delta, n.col_offset + v[1].delta)
+        return (_concrete(v[0], stmt, alias_index), _concrete(v[1], stmt, alias_index))
     if isinstance(v, SymPos):
         n = _resolve_path(stmt, _generalise(v.path, alias_index))
-        return (n.lineno if v.part == 'line' else n.col_offset) + v.delta
+        base = getattr(n, {'line': 'lineno', 'col': 'col_offset', 'end_line': 'end_lineno', 'end_col': 'end_col_offset'}[v.part])
+        for sign, ipath in v.lens:
+            ident = _resolve_path(stmt, _generalise(ipath, alias_index))
+            if not isinstance(ident, str):
+                raise AnalysisError('length of %s is not the length of an identifier of the statement' % ipath)
+            base += sign * len(ident)
+        return base + v.delta
     raise AnalysisError('text search argument %r cannot be evaluated on a concrete statement' % (v,))
+
+
+def search_helpers(repo):
+    """The identifier text search(es) of supp: methods of SourceScope or Source whose first parameter is handed to a str.find call.
+    -> [(rel, class name, method name, node)]"""
+    def build():
+        out = []
+        for rel, cname in (('supp/scope.py', 'SourceScope'), ('supp/util.py', 'Source')):
+            for cls in ast.walk(repo.tree(rel)):
+                if not (isinstance(cls, ast.ClassDef) and cls.name == cname):
+                    continue
+                for fn in cls.body:
+                    if not isinstance(fn, ast.FunctionDef) or len(fn.args.args) < 3:
+                        continue
+                    first = fn.args.args[1].arg
+                    for c in ast.walk(fn):
+                        if isinstance(c, ast.Call) and isinstance(c.func, ast.Attribute) and c.func.attr in ('find', 'index', 'rfind') \
+                                and c.args and isinstance(c.args[0], ast.Name) and c.args[0].id == first:
+                            out.append((rel, cname, fn.name, fn))
+                            break
+        if not out:
+            raise AnalysisError('no identifier text search (a method of SourceScope or Source handing its first parameter to str.find) '
+                                'was found: the anchor of the text-searched positions vanished')
+        return out
+    return repo.memo('search-helpers', build)
 
 
 def _generalise(path, alias_index):
@@ -118,17 +148,30 @@ def call_shapes(repo):
             continue
         for s, bp, binder, b in r['binds']:
             loc = b.get('declared_at')
+            if isinstance(loc, tuple) and len(loc) == 2 and all(isinstance(x, SymPos) for x in loc):
+                # a position computed from parser positions (and identifier lengths): evaluated on the corpus as it stands
+                shapes.setdefault(kind, set()).add(('pos', loc, binder.get('note')))
+                continue
             if not (isinstance(loc, LocExpr) and loc.kind == 'text_search' and loc.extra):
                 shapes.setdefault(kind, set()).add(None)
                 continue
             ident, ipath, shift, delims, extras = (loc.extra + ((),))[:5]
+            helper = loc.extra[5] if len(loc.extra) > 5 else ('SourceScope', 'find_id_loc')
             name = binder['ident']
             if name not in ident:
                 shapes.setdefault(kind, set()).add(None)
                 continue
             prefix, _, suffix = ident.partition(name)
-            shapes.setdefault(kind, set()).add((prefix, suffix, loc.path, shift, delims, tuple((k, v) for k, v in extras)))
+            shapes.setdefault(kind, set()).add((prefix, suffix, loc.path, shift, delims, tuple((k, v) for k, v in extras), helper))
     return shapes
+
+
+def _names(lines, got, name):
+    """the text at `got` is the whole identifier `name`"""
+    return isinstance(got, tuple) and len(got) == 2 and all(isinstance(x, int) for x in got) and 1 <= got[0] <= len(lines) \
+        and got[1] >= 0 and lines[got[0] - 1][got[1]:got[1] + len(name)] == name \
+        and not (got[1] > 0 and (lines[got[0] - 1][got[1] - 1].isalnum() or lines[got[0] - 1][got[1] - 1] == '_')) \
+        and not lines[got[0] - 1][got[1] + len(name):got[1] + len(name) + 1].replace('_', 'a').isalnum()
 
 
 def model(repo):
@@ -172,7 +215,23 @@ def model(repo):
                         out.append(('text', key, False, 'the position of this %s binding does not come from find_id_loc with the bound '
                                     'identifier in the search string' % kind, None))
                         continue
-                    prefix, suffix, spath, shift, delims, extras = shape
+                    if shape[0] == 'pos':
+                        if (shape[2] == 'asname') != (kind in ('import', 'from-import') and stmt.names[idx].asname is not None):
+                            nchecked -= 1
+                            continue        # the shape of the other alias form
+                        try:
+                            got = _concrete(shape[1], stmt, idx)
+                        except (IndexError, AttributeError, TypeError):
+                            nchecked -= 1
+                            continue
+                        ok = _names(lines, got, name)
+                        text = lines[got[0] - 1][got[1]:got[1] + len(name) + 3] if 1 <= got[0] <= len(lines) else None
+                        out.append(('text', key, ok, 'the %s binding `%s` of %r is positioned at %s = %r, where the text reads %r - not the '
+                                    'bound identifier' % (kind, name, src, got, shape[1], text),
+                                    '%s: text at declared_at is the identifier' % key))
+                        continue
+                    prefix, suffix, spath, shift, delims, extras, helper = shape
+                    hname = '.'.join(helper)
                     try:
                         start = (stmt.lineno, stmt.col_offset) if spath == 'node' else None
                         if start is None:
@@ -189,16 +248,13 @@ def model(repo):
                                 args.append(_concrete(v, stmt, idx))
                             else:
                                 kwargs[k] = _concrete(v, stmt, idx)
-                        got = it.call(it.getattr(scope, 'find_id_loc'), args, kwargs)
+                        got = it.call(it.getattr(scope if helper[0] == 'SourceScope' else source, helper[1]), args, kwargs)
                     except InterpRaise as e:
-                        out.append(('text', key, False, 'find_id_loc raises %s' % e, None))
+                        out.append(('text', key, False, '%s raises %s' % (hname, e), None))
                         continue
                     except Uninterpretable as e:
-                        raise AnalysisError('find_id_loc is outside the interpretable subset: %s' % e)
-                    ok = isinstance(got, tuple) and len(got) == 2 and all(isinstance(x, int) for x in got) and 1 <= got[0] <= len(lines) \
-                        and lines[got[0] - 1][got[1]:got[1] + len(name)] == name \
-                        and not (got[1] > 0 and (lines[got[0] - 1][got[1] - 1].isalnum() or lines[got[0] - 1][got[1] - 1] == '_')) \
-                        and not lines[got[0] - 1][got[1] + len(name):got[1] + len(name) + 1].replace('_', 'a').isalnum()
+                        raise AnalysisError('%s is outside the interpretable subset: %s' % (hname, e))
+                    ok = _names(lines, got, name)
                     text = lines[got[0] - 1][got[1]:got[1] + len(name) + 3] if isinstance(got, tuple) and isinstance(got[0], int) and 1 <= got[0] <= len(lines) else None
                     out.append(('text', key, ok, 'the %s binding `%s` of %r is positioned at %s, where the text reads %r - not the bound '
                                 'identifier (search string %r from %s%s)' % (kind, name, src, got, text, prefix + name + suffix, start,
